@@ -182,7 +182,7 @@ Lemma select_on now stamp maxAge s :
    map pid (filter (live_now now maxAge) s)).
 Proof.
   intros Hk. assert (Hnd := keys_unique_pids s Hk).
-  unfold select, search_running.
+  unfold select, select_from, search_running.
   rewrite (fetch_ok s Hnd) by (intros p Hp; now apply filter_In in Hp).
   rewrite !filter_filter. f_equal.
   rewrite aged_out_fold.
@@ -584,6 +584,23 @@ Proof.
   intros s now stamp maxAge p Hk Hp Hr Hs.
   destruct (resume_selection s now stamp maxAge true Hk) as [_ Hon].
   destruct (Hon eq_refl) as [Hres _]. apply Hres. exists p. now repeat split.
+Qed.
+
+(* a Vault with a search index: coercion.New repairs the index first, so stale entries never reach the
+   state chain and everything proved about [select] holds of the plan rows whatever the index said *)
+Lemma open_workstream_repairs_first now stamp maxAge recovery v :
+  open_workstream now stamp maxAge recovery true v = select now stamp maxAge recovery (v_plans v).
+Proof.
+  unfold open_workstream, select_vault, select, search_index, repair_index. cbn [v_plans v_stale].
+  now rewrite app_nil_r.
+Qed.
+
+Lemma open_workstream_no_index now stamp maxAge recovery implements s :
+  open_workstream now stamp maxAge recovery implements {| v_plans := s; v_stale := [] |} =
+  select now stamp maxAge recovery s.
+Proof.
+  unfold open_workstream, select_vault, select, search_index, repair_index.
+  destruct implements; cbn [v_plans v_stale]; now rewrite app_nil_r.
 Qed.
 
 (* the boundary: a plan whose most recent activity is exactly maxAge old is NOT stale (Before is strict) *)
